@@ -163,6 +163,6 @@ def run_proofs(ctx):
     reg, cs = build()
     ctx.assume("stateful_eval: environments, states and AST nodes are opaque references; LayeredMapping(...) creates a new mapping whose writes are confined to its own "
                "layer (proved in vf/proofs/c19.py); sanitize_variable_names may write aliases into the environment it is given; eval/compile/ast.parse may raise anything")
-    ctx.trust("assumed contracts (stateful_eval): sanitize_variable_names, get_expression_variables, _is_stateful_transform, format_expr, ast.parse/walk/keyword/"
+    ctx.trust("assumed contracts (stateful_eval): sanitize_variable_names, get_expression_variables (proved separately: c17_vars.py), _is_stateful_transform (proved separately: c04_stateful.py), format_expr, ast.parse/walk/keyword/"
               "fix_missing_locations, compile, eval (user code)")
     run_contracts(ctx, cs, reg)
